@@ -35,6 +35,10 @@ CHECKS = {
          "Trace_C10.tla keeps the reference / previous member of each family: SM-limit families (cos(beta-alpha) = 0, m_h = m_hSM = m over six values) must be independent of m within 1e-9 of one light-Higgs term; decoupling families (M = 1..31.6 TeV, fixed quartics, m_hSM = m_h) must shrink per component by 0.45 per factor sqrt(10) relative to the magnitude of the component's sub-parts",
          "first decoupling step only asserted not to grow (valid large-tan(beta) points reach 0.72); K12 (bosonic 2L noise >= 10 TeV) is a known finding; scales computed by the driver",
          "TLA+ trace validation (Trace_C10.tla) with family state", "DESIGN 5/C10"),
+ "C11": ("exploration",
+         "Trace_C11.tla collects the 23 offsets d = 0, +-1e-13 .. +-1e-3 of a one-parameter path through a TLC-enumerated mass coincidence (Regimes.tla: m = a, 2a, a/2, a + b, |a - b| over the masses of a THDM point, and mass / parameter coincidences of MSSM points located by bisection; components: bosonic / fermionic two-loop and one-loop parameter structs, and the public mass-basis path) and evaluates at the end of the path, in exact arithmetic: every value finite; if the path is usable (<= 20 % change between the ends) every value within 1 % of the contribution's magnitude of the line through the ends",
+         "K16, K17, K18 are known findings (K2 repaired); MSSM paths move a Lagrangian parameter through the bisected coincidence; uncertainties are exempt from the band where a_mu^1L or a_mu^2L changes sign on the path (kink of |.| in their definition)",
+         "TLA+ trace validation (Trace_C11.tla, Dyadic.tla) over TLC-enumerated coincidences (Regimes.tla)", "DESIGN 5/C11"),
  "C12": ("model_checking",
          "Linalg.tla models, on exact Gaussian-integer matrices with integer eigenvector matrices (Q Q^T = c I), what GM2Calc composes on top of the numerical back ends - eigen -> sort by |w| -> adjoint; eigen -> phase i for negative eigenvalues -> sort -> transpose; svd -> reverse values and permute vectors -> transpose - with the back end abstracted as 'any exact decomposition in its own convention' (all tie-breakings explored); the documented contracts hold for all matrices in the bounded class and four convention slips violate them.  Trace_C12.tla validates calls of the real templates (fs_svd, svd, reorder_svd, [fs_]diagonalize_hermitian, [fs_|reorder_]diagonalize_symmetric; real and complex; 2x2..4x4) on TLC-enumerated classes (distinct/double/triple/all-equal/zero/negative-pair/hierarchical/integer/zero-row spectra x diagonal/signed-permutation/random-unitary bases): reconstruction, unitarity, sign, ordering and error bounds with exact products",
          "tolerance relative to the matrix norm (512 eps; 2^27 eps for real 3x3 eigen problems solved by Eigen's closed-form computeDirect); non-square instantiations are not exercised",
